@@ -10,7 +10,7 @@ ALL_OPS = {
     'shard', 'batch', 'unbatch', 'items', 'tile', 'cache_lazy', 'cache_eager', 'catch', 'copy', 'prefetch',
     'reshuffle', 'local_shuffle', 'concat', 'intersperse', 'zip', 'key_zip',
 }
-EXC_NAMES = ['FilterException', 'VErrA', 'VErrB', 'VErrC']
+EXC_NAMES = ['FilterException', 'VErrA', 'VErrB', 'VErrC', 'KeyError']
 CATCH_SPECS = [None, 'VErrA', ['VErrA', 'VErrC'], 'Exception', 'VErrB', ['FilterException', 'VErrB']]
 
 PROFILES = {
@@ -54,7 +54,7 @@ def st_source(draw, ctx, n=None, kind=None, keys=None, min_n=0):
         if n is None:
             n = draw(st.integers(min_n, ctx.max_n))
         base = draw(st.permutations(progs.KEY_ALPHABET))[:n]
-        suffix = draw(st.sampled_from(['', str(sid), '_key']))
+        suffix = draw(st.sampled_from(['', '', str(sid), '_key', '\x00', ' ', '\u00e9/.']))  # keys are arbitrary str
         keys = [k + suffix for k in base]
     mode = draw(st.sampled_from([m for m in ctx.modes if m != 'wu'] or ['pickle']))
     out = {'op': 'dict', 'id': sid, 'keys': list(keys), 'mode': mode}
@@ -167,7 +167,7 @@ def st_stage(draw, op, node, m, ctx, allowed, budget):
         keyless_ok = m.cap_keys == 'req' and not m.taint and m.keys is not None
         key = draw(st.sampled_from([None, 1, 2, 3] if keyless_ok else [1, 2, 3]))
         return {'op': 'sort', 'key': key, 'reverse': draw(st.booleans()),
-                'sort_fn': draw(st.sampled_from([None, 'stable_wrapper'])), 'in': node}
+                'sort_fn': draw(st.sampled_from([None, 'stable_wrapper', 'inverting'])), 'in': node}
     if op == 'shard':
         k = draw(st.integers(1, n))
         return {'op': 'shard', 'k': k, 'i': draw(st.integers(0, k - 1)), 'via': draw(st.sampled_from(['shard', 'split'])),
